@@ -956,4 +956,4 @@ class LDAPServer(LDAPSession):
         msg: LDAPMessage,
     ) -> None:
         if not isinstance(msg, UnbindRequest) and msg.message_id not in self._outstanding_requests:
-            raise LDAPError(f"Message {msg} is a response to an unknown request")
+            raise LDAPError(f"Message {type(msg).__name__} is a response to an unknown request")
